@@ -431,6 +431,61 @@ example :
     (addBlocksFF Uex (runX Uex Mgr.init [([1, 2], false)]) [3, 4, 5]).2 = some .rollbackFailed ∧
     (addBlocksFF Uex (runX Uex Mgr.init [([1, 2], false)]) [3, 4, 5]).1.best = [2, 1, 0] := by decide
 
+/-! ### what `History` offers to a peer (the sample from which the common ancestor is negotiated)
+
+`Manager.History` (`manager.go:160-184`, model `history`/`histHeight`) samples the best chain at the
+tip, the nine blocks below it and then at exponentially growing distances, clamped at genesis.
+Syncing from a peer on another fork works only if the sample contains a block both chains share;
+genesis is shared by everyone, so "genesis is always offered" is what makes negotiation total. -/
+
+/-- in every reachable state: the first sample is the tip, every sample is a block of the best chain,
+and — for every chain shorter than 7 + 2^23 blocks — genesis is among the samples -/
+theorem history_offers_tip_and_genesis {U} (hU : WFU U) (hist : List (List Nat × Bool)) :
+    let m := runX U Mgr.init hist
+    (history m).head? = some m.tip ∧ (∀ i ∈ history m, i ∈ m.best) ∧
+    (m.tipHeight ≤ 7 + 2 ^ 23 → 0 ∈ history m) := by
+  intro m
+  have h := inv_reachableX hU hist
+  have hne : m.best ≠ [] := h.chain.ne_nil
+  have hlen : 0 < m.best.length := List.length_pos_iff.mpr hne
+  have hlast : m.best[m.best.length - 1]? = some 0 := by
+    rw [← List.getLast?_eq_getElem?]; exact h.chain.last_zero
+  have hb0 : m.bestAt 0 = some 0 := by
+    simp only [Mgr.bestAt, hlen, if_true, Nat.sub_zero]; exact hlast
+  have hbt : m.bestAt m.tipHeight = some m.tip := by
+    simp only [Mgr.bestAt, Mgr.tipHeight, Mgr.tip]
+    have : m.best.length - 1 < m.best.length := by omega
+    simp only [this, if_true, Nat.sub_self]
+    cases hb : m.best with
+    | nil => exact absurd hb hne
+    | cons a t => simp
+  refine ⟨?_, ?_, ?_⟩
+  · -- the sample of index 0 is taken at the tip height
+    have h0 : histHeight m.tipHeight 0 = m.tipHeight := by simp [histHeight]
+    simp only [history]
+    rw [show List.range 32 = 0 :: (List.range 31).map (· + 1) by decide]
+    simp only [List.filterMap_cons, h0, hbt, List.head?_cons]
+  · intro i hi
+    simp only [history, List.mem_filterMap, List.mem_range] at hi
+    obtain ⟨k, _, hk⟩ := hi
+    exact bestAt_mem hk
+  · intro hth
+    simp only [history, List.mem_filterMap, List.mem_range]
+    refine ⟨31, by decide, ?_⟩
+    have h31 : histHeight m.tipHeight 31 = 0 := by
+      simp only [histHeight]
+      have : (31 : Nat) ≥ 10 := by decide
+      simp only [this, if_true]
+      have h2 : 7 + 2 ^ (31 - 8) = 7 + 2 ^ 23 := by decide
+      rw [h2]
+      split <;> omega
+    rw [h31]; exact hb0
+
+
+/-- non-vacuity: on the example universe after [1,2] the sample is the tip, its parent, and genesis
+in all remaining slots (what the Go code pads with) -/
+example : history (runX Uex Mgr.init [([1, 2], false)]) = [2, 1] ++ List.replicate 30 0 := by decide
+
 /-! ### atomicity licence: callers of a lock-disciplined object are serialisable
 
 `addBlocks`, `addV2`, `prune` above are ATOMIC steps. The manager is called from many goroutines.
